@@ -140,7 +140,7 @@ def st_desc(formats=("fb", "npz"),
         e = draw(eps if eps is not None else st.integers(1, 5))
         if hashes is None:
             h = draw(
-                st.lists(st.sampled_from(dsops.HASHES), min_size=1,
+                st.lists(st.sampled_from(dsops.HASHES), min_size=0,
                          max_size=3))
         else:
             h = draw(hashes)
